@@ -47,11 +47,23 @@ def seed():
         return 0
 
 
+_created = []
+
+
 def workdir(name, fresh=True):
-    d = os.path.join(WORK, name)
+    """Scratch directory private to this process (concurrent runs of the same check must not share
+    TLC metadirs); removed again when the process exits."""
+    import atexit
+    top = name.split("/")[0] + "-%d" % os.getpid()
+    d = os.path.join(WORK, top, *name.split("/")[1:])
     if fresh and os.path.isdir(d):
         shutil.rmtree(d, ignore_errors=True)
     os.makedirs(d, exist_ok=True)
+    root = os.path.join(WORK, top)
+    if root not in _created:
+        _created.append(root)
+        if len(_created) == 1:
+            atexit.register(lambda: [shutil.rmtree(x, ignore_errors=True) for x in _created])
     return d
 
 
